@@ -4,9 +4,12 @@
 package proto
 
 import (
+	"encoding/binary"
 	"fmt"
 	"net"
 	"strconv"
+
+	"github.com/pion/stun/v3"
 )
 
 // Addr is ip:port.
@@ -68,4 +71,34 @@ func (t FiveTuple) Equal(b FiveTuple) bool {
 	}
 
 	return true
+}
+
+const (
+	xorAddrHeaderSize = 4 // 8 bits of zeroes, 8 bits of family, 16 bits of x-port
+	xorAddrFamilyIPv4 = 0x01
+	xorAddrFamilyIPv6 = 0x02
+)
+
+// checkXORAddrSize asserts that the value of an XOR-*-ADDRESS attribute holds
+// exactly as many address bytes as its family requires, so that a truncated
+// attribute is rejected instead of being decoded as a different address.
+func checkXORAddrSize(m *stun.Message, attr stun.AttrType) error {
+	v, err := m.Get(attr)
+	if err != nil {
+		return err
+	}
+	if len(v) < xorAddrHeaderSize {
+		// Too short to hold a family, reported by the decoder.
+		return nil
+	}
+
+	switch binary.BigEndian.Uint16(v[0:2]) {
+	case xorAddrFamilyIPv4:
+		return stun.CheckSize(attr, len(v), xorAddrHeaderSize+net.IPv4len)
+	case xorAddrFamilyIPv6:
+		return stun.CheckSize(attr, len(v), xorAddrHeaderSize+net.IPv6len)
+	default:
+		// Unknown family, reported by the decoder.
+		return nil
+	}
 }
